@@ -35,7 +35,7 @@ def build(cfg, like=None):
     if like is None:
         like = idblob.Likelihood(t, mode=c["mode"], shift=c["shift"], pointwise=c.get("pointwise", False),
                                  shared_counter=idblob.SHARED)
-    pt = idblob.Transform(t)
+    pt = idblob.Transform(t, dtype=c.get("xdtype"))
     periodic, reflective = t.periodic, t.reflective
     if c["bc"] != "target":
         periodic, reflective = c["bc"]
